@@ -1010,14 +1010,14 @@ def eval_dyad_take(a, b, backend):
     b = backend.str_to_chr_arr(b) if j else np_backend.asarray(b)
     abs_a = np_backend.abs(a)
     aa = int(abs_a) if hasattr(abs_a, 'item') else abs_a  # Convert tensor to int
-    b_size = backend.array_size(b)
+    b_size = len(b) if backend.array_size(b) else 0
     if b_size == 0:
         # Handle empty array/string case
         r = b
     elif aa > b_size:
-        b = np_backend.tile(b, aa // len(b))
-        b = np_backend.concatenate((b, b[:aa-backend.array_size(b)]) if a > 0 else (b[-(aa-backend.array_size(b)):], b))
-        r = b[a:] if a < 0 else b[:a]
+        # cycle through the elements (rows) of b
+        idx = np_backend.arange(aa)
+        r = b[(idx if a > 0 else idx + (b_size - aa % b_size)) % b_size]
     else:
         r = b[a:] if a < 0 else b[:a]
     return "".join(r) if j else r
